@@ -103,4 +103,12 @@ def handleThr (args obs : List String) : Verdict := Id.run do
                        String.join (ukeys.map (" key=" ++ ·)) }
   | _ => return bad "arity"
 
+/-- `thrq 1 | faked= restorepanic= handover=`: a scope exit whose restore panics (mprotect refused); whatever
+    else happens, a waiting thread must get its turn (C04's hand-over clause) -/
+def handleThrQ (obs : List String) : Verdict :=
+  let crash := obs.any (·.startsWith "CRASH")
+  let ok := !crash && kv obs "handover" == some "1"
+  { agree := !crash && kv obs "faked" == some "1" && kv obs "restorepanic" == some "1", propOk := ok,
+    branch := "thrq", detail := if ok then "" else (if crash then " key=c04.crash" else " key=c04.handover-after-failed-restore") }
+
 end Driver
